@@ -1,4 +1,4 @@
 From Coq Require Import ZArith List Bool Extraction ExtrOcamlBasic.
 From C08 Require Import Model.
 Extraction "c08.ml" is_subtype is_proper_subtype is_same_type make_simplified_union join_types meet_types
-  is_subtype_c sub no_cache wf_ct wf_class empty_cache record K_sub K_proper K_proper_np K_proper_ntp any_free frag1 frag_up frag2 wf_lat wf_gen wf_contr lits_ok no_contr covt chains_ok.
+  is_subtype_c sub no_cache wf_ct wf_class empty_cache record K_sub K_proper K_proper_np K_proper_ntp any_free frag1 frag_up frag2 wf_lat wf_gen wf_contr lits_ok no_contr covt chains_ok table_guard type_guard trans_guard meet_guard.
